@@ -15,8 +15,8 @@ namespace S.Codec
 open M.Schema M.Bincode
 
 def numInRange (t : NumTy) (n : Int) : Bool :=
-  if t.signed then decide (-(256 ^ t.bytes / 2 : Nat) ≤ n) && decide (n < (256 ^ t.bytes / 2 : Nat))
-  else decide (0 ≤ n) && decide (n < (256 ^ t.bytes : Nat))
+  if t.signed then decide (-(t.modulus : Int) ≤ 2 * n ∧ 2 * n < (t.modulus : Int))
+  else decide (0 ≤ n ∧ n < (t.modulus : Int))
 
 scoped notation "U64" => (18446744073709551616 : Nat)
 scoped notation "U32" => (4294967296 : Nat)
